@@ -78,6 +78,20 @@ func (r *Rec) Echo(xs ...string) []string { return xs }
 
 type Inner struct{ *js.Object }
 
+type FIn struct{ K int }
+
+type FT struct {
+	Name string
+	N    int
+	F    float64
+	Bs   []byte
+	In   FIn
+	hid  int
+}
+
+func (t *FT) Double() int      { return t.N * 2 }
+func (t *FT) SetName(s string) { t.Name = s }
+
 type Tagged struct {
 	Inner
 	N     int                      ` + "`js:\"n\"`" + `
@@ -238,6 +252,72 @@ func main() {
 	r = js.Global.Call("__vpCallSpec", "tg.param", js.Global.Get("c11tg"), "[{n:21}]")
 	chk("tg.param", itoa(r.Int()), "42")
 
+	// ---- MakeFullWrapper: methods plus getters/setters for the exported fields
+	ft := &FT{Name: "n\u00e9", N: 3, F: 1.5, Bs: []byte{1, 2}, In: FIn{4}, hid: 9}
+	fw := js.MakeFullWrapper(ft)
+	js.Global.Call("__vpProp", "fw.name", fw, "Name")
+	js.Global.Call("__vpProp", "fw.n", fw, "N")
+	js.Global.Call("__vpProp", "fw.f", fw, "F")
+	js.Global.Call("__vpProp", "fw.bs", fw, "Bs")
+	js.Global.Call("__vpProp", "fw.hid", fw, "hid")
+	js.Global.Call("__vpProp", "fw.in.k", js.Global.Call("__vpPeek", fw, "In"), "K")
+	js.Global.Call("__vpMethod", "fw.double", fw, "Double")
+	js.Global.Call("__vpPoke", fw, "N", 7)
+	js.Global.Call("__vpPoke", fw, "Name", "z\u00fc")
+	chk("fw.set.n", itoa(ft.N), "7")
+	chk("fw.set.name", shS(ft.Name), shS("z\u00fc"))
+	js.Global.Call("__vpMethod", "fw.setname", fw, "SetName", "via method \U0001F600")
+	chk("fw.method", shS(ft.Name), shS("via method \U0001F600"))
+	js.Global.Set("c11ft", func(x *FT) bool { return x == ft })
+	chk("fw.back", shB(js.Global.Call("c11ft", fw).Bool()), "t")
+
+	// ---- Delete, Undefined, dynamic method names, spread forms of Invoke / New
+	d := newObj()
+	d.Set("a", 1)
+	d.Set(dynKey, 2)
+	d.Set("keep", 3)
+	d.Delete("a")
+	d.Delete(dynKey)
+	js.Global.Call("__vp", "del.obj", d)
+	chk("del.undef", shB(d.Get("a") == js.Undefined), "t")
+	chk("del.nokey", shB(js.Global.Get("c11NoSuchGlobal") == js.Undefined), "t")
+	chk("undef.notnil", shB(js.Undefined != nil), "t")
+	var nilObj *js.Object
+	js.Global.Call("__vp", "nil.obj", nilObj)
+	js.Global.Call("__vp", "undef.obj", js.Undefined)
+	chk("nil.back", shB(js.Global.Call("__vpIdent", nilObj) == nil), "t")
+	name := "__v" + "p"
+	r = js.Global.Call(name, "dyn.call", int64(-7))
+	chk("dyn.call", i64s(r.Int64()), "-7")
+	sargs := []any{"spread.invoke", uint16(65535)}
+	r = vpFn.Invoke(sargs...)
+	chk("spread.invoke", itoa(r.Int()), "65535")
+	nargs := []any{"spread.new", "sé"}
+	r = boxCtor.New(nargs...)
+	chk("spread.new", shS(r.Get("v").String()), shS("sé"))
+	chk("spread.new.n", itoa(r.Get("n").Int()), "2")
+	r = js.Global.Call("__vpN", "multi.args", 1, "two", 3.5, nil, true, []int8{1})
+	chk("multi.args", itoa(r.Length()), "6")
+	chk("index.str", shS(mk("\"ab\"").Index(1).String()), shS("b"))
+	chk("index.ta", itoa(mk("new Int8Array([-3,4])").Index(0).Int()), "-3")
+
+	// ---- JavaScript exceptions become Go panics holding a *js.Error
+	func() {
+		defer func() {
+			e := recover()
+			je, ok := e.(*js.Error)
+			chk("err.type", shB(ok), "t")
+			if ok {
+				chk("err.msg", shS(je.Error()), shS("JavaScript error: boom \u00e9"))
+				chk("err.name", shS(je.Get("name").String()), shS("TypeError"))
+				chk("err.stack", shB(len(je.Stack()) > 0), "t")
+				js.Global.Call("__vp", "err.obj", je.Get("message"))
+			}
+		}()
+		mk("function(){ throw new TypeError(\"boom \\u00e9\") }").Invoke()
+		chk("err.unreachable", "reached", "not reached")
+	}()
+
 	// ---- NewArrayBuffer copies the bytes of the slice
 	bb := []byte{0, 1, 2, 3, 4, 5}
 	ab := js.NewArrayBuffer(bb[2:5])
@@ -263,17 +343,29 @@ func show_strs(v []string) string {
 		"fn.none":  "undef", "fn.cb": d(42), "fn.cb2": d(42), "fn.struct": objOf("sum", d(7)), "fn.objsame": "bool:true",
 		"fn.mixed": "arr[" + d(-128) + "," + d(65535) + "," + d(0.5) + "," + ds("\U0001F600z") + ",bool:true,ta:Uint8Array:2:[" + bitsHex(9) + "," + bitsHex(8) + "]," + objOf("k", ds("v")) + "," + d(1.25) + "," + d(-2.5) + "]",
 		"fn.keep":  "undef", "fn.keep0": "undef",
-		"mf.1":     objOf("this", objOf("tag", ds("T")), "n", d(2), "first", d(3), "sum", d(7)), "mf.same": "bool:true",
+		"mf.1": objOf("this", objOf("tag", ds("T")), "n", d(2), "first", d(3), "sum", d(7)), "mf.same": "bool:true",
 		"mf.2": d(3), "mf.nil": "null", "mf.thisret": objOf("tag", ds("T"), "m", "fn#?"), "mf.thisret.same": "bool:true",
 		"mw.inc": d(15), "mw.get": ds("n\u00e9"), "mw.pair": "arr[" + d(15) + "," + ds("n\u00e9") + "]", "mw.echo": "arr[" + ds("p") + "," + ds("\u00e9") + "]",
 		"tg.n": d(-5), "tg.s": ds("s\U0001F600"), "tg.f64": "num:8000000000000000", "tg.i64": d(-9007199254740992), "tg.u8": d(255), "tg.b": "bool:true",
 		"tg.bs": "ta:Uint8Array:3:[" + bitsHex(1) + "," + bitsHex(2) + "," + bitsHex(3) + "]", "tg.any": objOf("k", "ta:Int32Array:1:["+bitsHex(1)+"]"), "tg.weird": d(3),
 		"tg.fn.set": ds("qq"), "tg.same": "bool:true", "tg.param": d(42),
-		"ab.u8": "ta:Uint8Array:3:[" + bitsHex(2) + "," + bitsHex(3) + "," + bitsHex(4) + "]",
+		"ab.u8":   "ta:Uint8Array:3:[" + bitsHex(2) + "," + bitsHex(3) + "," + bitsHex(4) + "]",
+		"fw.name": ds("n\u00e9"), "fw.n": d(3), "fw.f": d(1.5), "fw.bs": "ta:Uint8Array:2:[" + bitsHex(1) + "," + bitsHex(2) + "]", "fw.hid": "undef", "fw.in.k": d(4), "fw.double": d(6), "fw.setname": "undef",
+		"del.obj": objOf("keep", d(3)), "nil.obj": "null", "undef.obj": "undef", "dyn.call": d(-7), "spread.invoke": d(65535), "spread.new": ds("s\u00e9"),
+		"multi.args.n": d(6), "multi.args.0": d(1), "multi.args.1": ds("two"), "multi.args.2": d(3.5), "multi.args.3": "null", "multi.args.4": "bool:true",
+		"multi.args.5": "ta:Int8Array:1:[" + bitsHex(1) + "]", "err.obj": ds("boom \u00e9"),
 	}
 	sp.same = [][]string{{"id.top1", "id.top2", "id.top3", "id.top4", "id.top5", "id.top6", "id.top7", "id.top8"}, {"id.cl1", "id.cl2"}}
 	sp.differ = [][2]string{{"id.top1", "id.other"}, {"id.top1", "id.cl1"}, {"id.cl1", "id.other"}}
 	sp.checks = chkIDs(src)
+	// err.unreachable must NOT print anything
+	var cs []string
+	for _, c := range sp.checks {
+		if c != "err.unreachable" {
+			cs = append(cs, c)
+		}
+	}
+	sp.checks = cs
 	return sp
 }
 
